@@ -20,7 +20,7 @@ type timeT = time.Time
 // Profile weights the operation alphabet of a case.
 type Profile struct {
 	Send, Recv, RecvDup, Ack, AckDup, Timeout, TimeoutEarly, TimeoutReceived, RecvAfterTimeout int
-	Replay, Mutate, AsyncAck, Commit, Close, OutOfOrder, Redirect, Boundary, SendBoundary     int
+	Replay, Mutate, AsyncAck, Commit, Close, OutOfOrder, Redirect, Boundary, SendBoundary      int
 	SoonPct                                                                                    int // % of sends with a soon-expiring timeout
 	MultiPayloadPct                                                                            int
 }
@@ -121,7 +121,9 @@ func (s *Sim) Step(pr Profile) string {
 		}},
 		{pr.OutOfOrder, func() string {
 			// acknowledge a later packet of an ORDERED lane before its predecessor
-			p := s.pick(func(p *Pkt) bool { return p.L.Ordered && p.received() && p.ackKnown() && !p.terminal() && !s.isOrderedAckHead(p) })
+			p := s.pick(func(p *Pkt) bool {
+				return p.L.Ordered && p.received() && p.ackKnown() && !p.terminal() && !s.isOrderedAckHead(p)
+			})
 			if p == nil {
 				return ""
 			}
@@ -379,6 +381,19 @@ func (s *Sim) sendBoundaryOp() string {
 		}{{"bt-1", bt - 1}, {"bt", bt}, {"bt+1", bt + 1}, {"bt+24h", bt + 86400}, {"bt+24h+1", bt + 86401}, {"client-time", ct}, {"client-time+1", ct + 1}}
 		o := opts[s.R.Intn(len(opts))]
 		tt, label = o.v, o.l
+	} else if s.R.Intn(4) == 0 {
+		// both timeouts set: one of them comfortably in the future, the other one at / next to the client's view
+		if s.R.Bool() {
+			d := int64(s.R.Intn(3)) - 1
+			th = clienttypes.NewHeight(vh.RevisionNumber, vh.RevisionHeight+1000)
+			tt = uint64(vt.UnixNano() + d)
+			label = fmt.Sprintf("future-height+client-time%+dns", d)
+		} else {
+			d := int64(s.R.Intn(3)) - 1
+			th = clienttypes.NewHeight(vh.RevisionNumber, uint64(int64(vh.RevisionHeight)+d))
+			tt = uint64(vt.Add(1000 * time.Hour).UnixNano())
+			label = fmt.Sprintf("client-height%+d+future-time", d)
+		}
 	} else if s.R.Intn(3) == 0 {
 		// timeout heights of another revision: an earlier revision has passed whatever its height, a later one has not
 		if s.R.Bool() && vh.RevisionNumber > 0 {
@@ -411,7 +426,9 @@ func (s *Sim) sendBoundaryOp() string {
 
 // boundaryOp relays a receive so that it executes exactly at (or one block before) the packet's timeout height / time.
 func (s *Sim) boundaryOp() string {
-	p := s.pick(func(p *Pkt) bool { return !p.received() && !p.terminal() && s.isOrderedHead(p) && !s.elapsedOnDst(p) && s.soon(p) })
+	p := s.pick(func(p *Pkt) bool {
+		return !p.received() && !p.terminal() && s.isOrderedHead(p) && !s.elapsedOnDst(p) && s.soon(p)
+	})
 	if p == nil {
 		return ""
 	}
